@@ -22,6 +22,16 @@ equal input point / integer / fraction of bounded denominator with a residual te
 point) and has TLC validate every record in batch.  Python computes no expected value.
 nsphere.fit_nsphere is a least-squares fit, not a bound: it is only exercised through
 minimum_nsphere and nothing is demanded of it.
+
+Besides the single calls on fresh objects there are
+  histories   one PointCloud / Trimesh object, volumes read in several orders (hull first, sphere
+              first, minimum_nsphere(obj) first, bounding_primitive first), the object moved by
+              apply_translation / apply_scale / apply_transform with exact integer maps, volumes
+              read again, apply_obb last: every read is a record judged against the vertices the
+              object has at that moment (stale caches, results that alias and corrupt each other);
+  wide sets   tight lattice clusters 10^5 apart (chamfered cube corners, random clusters): hull
+              faces of area ~1 next to faces of area ~10^10; TLC evaluates the orientation
+              determinants as polynomials in L = 10^5 (kind "hullw").
 """
 import itertools
 import json
@@ -726,7 +736,7 @@ def work_items(tier):
     rs = np.random.RandomState(seed() + 1616)
     big = tier == "thorough"
     m = 12 if big else 1
-    counts = {"random": 190 * m, "block": 50 * m, "slab": 6 * m, "cluster": 50 * m, "flat": 60 * m,
+    counts = {"random": 160 * m, "block": 50 * m, "slab": 6 * m, "cluster": 50 * m, "flat": 60 * m,
               "generic": 100 * m, "ties": 60 * m, "dups": 16 * m}
     pcounts = {"planar_random": 60 * m, "planar_generic": 60 * m, "planar_block": 20 * m}
     items = []
@@ -757,7 +767,9 @@ def work_items(tier):
         if len(P) > 12:
             continue
         name, off, sc = placements(rs, 3, 1)[j % 2]
-        for n, script in enumerate(scripts(rs, cyl=(j % 3 == 0))):
+        for n, script in enumerate(scripts(rs, cyl=(j % 4 == 0))):
+            if n == 3 and j % 3:
+                continue        # bounding_primitive evaluates the (slow) cylinder: every third object
             if (j + n) % 2 == 0 or tag == "mesh":
                 k = len(items)
                 items.append({"k": k, "base": base, "family": "history_" + tag, "dim": 3, "pts": P, "faces": F,
@@ -923,6 +935,9 @@ def main(argv):
         "weaker fixed-point form; minimality only for inputs in general position (no five cospherical / four cocircular)",
         "oriented box and cylinder: fixed point 1e-4 with slack 1e-3 (containment, rigid frame, centred); minimality of "
         "these two is not claimed by the property and not checked",
+        "histories: every read on a moved / already queried object is judged against the vertices read back from the "
+        "object after the reads (the moves themselves are property C19); wide sets: coordinates cl * 10^5 + lo, hull "
+        "clauses only, signs decided as polynomials in 10^5",
         "not constrained: inputs on hull faces/edges being vertices or not, zero-area hull faces, meshes with "
         "unreferenced vertices (Trimesh.bounds documents that it ignores them), degenerate inputs (coplanar 3D sets), "
         "nsphere.fit_nsphere (a least-squares fit, not a bound)",
